@@ -551,3 +551,207 @@ package sio
 //@   callsite newNoopDebugger skip
 //@   callsite NewSessionAwareAdapterCreator
 //@     requires arg0 == (old(config.ServerConnectionStateRecovery.MaxDisconnectionDuration) == 0 ? DefaultMaxDisconnectionDuration : old(config.ServerConnectionStateRecovery.MaxDisconnectionDuration)) [C08.window.configured]
+
+// ---------------------------------------------------------------------------------------------
+// C12. Namespace middlewares run in registration order on (socket, handshake); nothing is called after the first
+// rejection; the result is nil exactly when every registered middleware accepted; a rejection is carried verbatim.
+// assumption: a middleware does not change the chain while it runs (Use would block on middlewareFuncsMu).
+//@ func (*Namespace).runMiddlewares
+//@   opt safety off
+//@   ghost calls int = 0
+//@   ghost rejected bool = false
+//@   ghost lastret any = nil
+//@   callsite f skip
+//@     requires !rejected [C12.chain.stop]
+//@     requires calls < len(n.middlewareFuncs) && callee == n.middlewareFuncs[calls] [C12.chain.order]
+//@     requires unbox(arg0, *serverSocket) == socket && arg1 == handshake [C12.chain.sees]
+//@     update calls = calls + 1
+//@     updateafter rejected = result != nil
+//@     updateafter lastret = result
+//@   loop 0 invariant calls == rangeindex + 1 && !rejected
+//@   ensures result == nil <==> !rejected [C12.chain.result]
+//@   ensures result == nil ==> calls == len(n.middlewareFuncs) [C12.chain.all]
+//@   ensures result != nil ==> typeis(result, *middlewareError) && unbox(result, *middlewareError).v == lastret [C12.chain.carries]
+
+// A socket built from a restored session - and only such a socket - reports Recovered().
+//@ func newServerSocket
+//@   opt safety off
+//@   requires server != nil && c != nil && nsp != nil
+//@   modifies *
+//@   callsite (*serverSocket).Join skip           // assumption: the adapter's AddAll does not reach into the socket being built
+//@   callsite Encode skip
+//@   callsite (*serverConn).sendBuffers skip
+//@   ensures result1 == nil ==> result0 != nil && result0.recovered == (previousSession != nil) [C12.newsocket.recovered]
+//@   ensures result1 != nil ==> result0 == nil [C12.newsocket.error]
+
+// Admission: doConnect (listing, own room, CONNECT reply, connection handlers) is reached only after the chain
+// returned nil, or through the documented recovery bypass (recovery enabled, UseMiddlewares off, session restored);
+// `add` itself never lists the socket; a rejected socket leaves every room it was put into.
+//@ func (*Namespace).add
+//@   opt safety off
+//@   requires n.server != nil && c != nil
+//@   ghost ran int = 0
+//@   ghost mwerr bool = false
+//@   ghost connects int = 0
+//@   ghost left int = 0
+//@   ghost restored bool = false
+//@   ghost made int = 0
+//@   ghost withsession bool = false
+//@   ghost sock *serverSocket = nil
+//@   callsite Unmarshal havoc
+//@   callsite RestoreSession
+//@     updateafter restored = result1
+//@   callsite newServerSocket
+//@     requires made == 0 && ((arg4 != nil) ==> restored) [C12.add.onesocket]
+//@     update made = made + 1
+//@     update withsession = arg4 != nil
+//@     updateafter sock = result0
+//@   callsite (*Namespace).runMiddlewares skip
+//@     requires ran == 0 && arg0 == sock [C12.add.chain.socket]
+//@     update ran = ran + 1
+//@     updateafter mwerr = result != nil
+//@   callsite (*serverSocket).leaveAll skip
+//@     requires recv == sock && mwerr
+//@     update left = left + 1
+//@   callsite (*Namespace).doConnect
+//@     requires connects == 0 && arg0 == sock && ((ran == 1 && !mwerr) || (n.server.connectionStateRecovery.Enabled && !n.server.connectionStateRecovery.UseMiddlewares && withsession)) [C12.add.gate]
+//@     update connects = connects + 1
+//@   callsite set
+//@     requires false [C12.add.listing.only.in.doconnect]
+//@   ensures result1 != nil ==> connects == 0 && result0 == nil [C12.add.rejected.notconnected]
+//@   ensures mwerr ==> result1 != nil && left == 1 [C12.add.rejected.leaves]
+//@   ensures result1 == nil ==> connects == 1 && result0 == sock [C12.add.accepted]
+
+// doConnect - the only place where a socket is listed - lists the socket, then runs the socket's own connect logic
+// (own room, CONNECT reply, connected flag) and only then starts the connection handlers; it cannot fail.
+//@ func (*Namespace).doConnect
+//@   opt safety off
+//@   modifies *
+//@   ghost listed int = 0
+//@   ghost onconn int = 0
+//@   ghost spawned int = 0
+//@   callsite set
+//@     requires recv == n.sockets && unbox(arg0, *serverSocket) == socket [C12.doconnect.lists.socket]
+//@     update listed = listed + 1
+//@   callsite (*serverSocket).onConnect skip
+//@     requires recv == socket && listed == 1 [C12.doconnect.listed.first]
+//@     update onconn = onconn + 1
+//@   callsite doConnect$1 go
+//@     requires onconn == 1 [C12.doconnect.handlers.last]
+//@     update spawned = spawned + 1
+//@   ensures result == nil [C12.doconnect.nofail]
+//@   ensures listed == 1 && onconn == 1 && spawned == 1 [C12.doconnect.once]
+
+// The connection level: the CONNECT of a rejected client is answered with exactly one CONNECT_ERROR for that namespace
+// carrying the rejection's data, and the socket is not registered on the connection; an accepted one is registered once.
+// assumption (errors.As): an error that IS a *middlewareError is found and handed out unchanged.
+//@ func (*serverConn).connect
+//@   opt safety off
+//@   requires c.server != nil && header != nil
+//@   ghost added int = 0
+//@   ghost adderr error = nil
+//@   ghost addsock *serverSocket = nil
+//@   ghost addnsp *Namespace = nil
+//@   ghost errs int = 0
+//@   ghost sets int = 0
+//@   ghost datav any = nil
+//@   ghost dataof *middlewareError = nil
+//@   callsite decode skip
+//@   callsite onFatalError skip
+//@   callsite (*Namespace).add skip
+//@     update added = added + 1
+//@     update addnsp = recv
+//@     updateafter adderr = result1
+//@     updateafter addsock = result0
+//@   callsite As havoc
+//@     assume typeis(adderr, *middlewareError) ==> result && mErr == unbox(adderr, *middlewareError)
+//@   callsite (*middlewareError).data
+//@     update dataof = recv
+//@     updateafter datav = result
+//@   callsite (*serverConn).connectError skip
+//@     requires added == 0 || adderr != nil [C12.connect.error.only.on.rejection]
+//@     requires typeis(adderr, *middlewareError) ==> dataof == unbox(adderr, *middlewareError) && arg0 == datav && addnsp != nil && arg1 == addnsp.name [C12.connect.carries]
+//@     update errs = errs + 1
+//@   callsite (*serverSocketStore).set
+//@     requires adderr == nil && added == 1 && recv == c.sockets && arg0 == addsock [C12.connect.admit]
+//@     update sets = sets + 1
+//@   callsite (*nspStore).set
+//@     requires adderr == nil && added == 1 && recv == c.nsps && arg0 == addnsp [C12.connect.admit.nsp]
+//@   ensures adderr != nil ==> errs == 1 && sets == 0 [C12.connect.reject]
+//@   ensures added == 1 && adderr == nil ==> sets == 1 && errs == 0 [C12.connect.accept]
+
+// What the client is told: an error is reported by its text, anything else (string, structured data) verbatim.
+//@ func (*middlewareError).data
+//@   opt safety off
+//@   ensures typeis(old(e.v), string) ==> result == old(e.v) [C12.data.string]
+//@   ensures typeis(old(e.v), *Handshake) ==> result == old(e.v) [C12.data.structured]
+//@   ensures typeis(old(e.v), *errors.errorString) ==> typeis(result, string) [C12.data.error]
+
+// CONNECT_ERROR: one packet of that type, for that namespace, with the message as data.
+//@ func (*serverConn).connectError
+//@   opt safety off
+//@   ghost enc int = 0
+//@   ghost sent int = 0
+//@   ghost encerr bool = false
+//@   callsite Encode skip
+//@     requires arg0 != nil && arg0.Type == parser.PacketTypeConnectError && arg0.Namespace == nsp && arg0.ID == nil [C12.connecterror.header]
+//@     requires typeis(arg1, *connectError) && (typeis(message, string) ==> unbox(arg1, *connectError).Message == message) [C12.connecterror.message]
+//@     update enc = enc + 1
+//@     updateafter encerr = result1 != nil
+//@   callsite onFatalError skip
+//@   callsite (*serverConn).sendBuffers skip
+//@     requires enc == 1 && !encerr [C12.connecterror.encoded.first]
+//@     update sent = sent + 1
+//@   ensures !encerr ==> sent == 1 [C12.connecterror.sent]
+
+// Per-socket event middlewares: every one sees the event's values, in registration order, up to the first rejection.
+//@ func (*serverSocket).callMiddlewares
+//@   opt safety off
+//@   ghost calls int = 0
+//@   ghost rejected bool = false
+//@   ghost lasterr error = nil
+//@   callsite (*serverSocket).callMiddlewareFunc skip
+//@     requires !rejected [C12.ev.chain.stop]
+//@     requires calls < len(s.middlewareFuncs) && arg0 == s.middlewareFuncs[calls] && arg1 == values [C12.ev.chain.order]
+//@     update calls = calls + 1
+//@     updateafter rejected = result != nil
+//@     updateafter lasterr = result
+//@   loop 0 invariant calls == rangeindex + 1 && !rejected
+//@   ensures result == nil <==> !rejected [C12.ev.chain.result]
+//@   ensures result == nil ==> calls == len(s.middlewareFuncs) [C12.ev.chain.all]
+//@   ensures result != nil ==> result == lasterr [C12.ev.chain.carries]
+
+// One event middleware: called once with the values; a non-nil return or a panic (with an error or with anything
+// else) is a rejection.
+//@ func (*serverSocket).callMiddlewareFunc
+//@   opt safety off
+//@   ghost called int = 0
+//@   ghost retnil bool = false
+//@   callsite Call skip maypanic
+//@     requires arg0 == values [C12.ev.sees.values]
+//@     update called = called + 1
+//@   callsite IsNil
+//@     updateafter retnil = result
+//@   ensures called == 1 [C12.ev.called.once]
+//@   ensures panicked() ==> result != nil [C12.ev.panic.rejects]
+//@   ensures !panicked() && !retnil ==> result != nil [C12.ev.nonnil.rejects]
+//@   ensures !panicked() && retnil ==> result == nil [C12.ev.nil.accepts]
+
+// An event reaches its handler only after the socket's middlewares accepted it (and the socket is still connected).
+//@ func (*serverSocket).onEvent
+//@   opt safety off
+//@   requires handler != nil && header != nil
+//@   ghost mwran int = 0
+//@   ghost mwerr bool = false
+//@   ghost handled int = 0
+//@   callsite decode skip
+//@   callsite onError skip
+//@   callsite (*serverSocket).callMiddlewares skip
+//@     requires mwran == 0 [C12.ev.once]
+//@     update mwran = mwran + 1
+//@     updateafter mwerr = result != nil
+//@   callsite (*eventHandler).call skip
+//@     requires mwran == 1 && !mwerr [C12.ev.gate]
+//@     update handled = handled + 1
+//@   ensures mwerr ==> handled == 0 [C12.ev.rejected.nothandled]
+//@   ensures handled <= 1 [C12.ev.handled.once]
